@@ -134,6 +134,13 @@ type Scenario struct {
 	BlockAt int  `json:"block_at,omitempty"`
 	// WaitMs overrides the deadline after which a fence is declared missing.
 	WaitMs int `json:"wait_ms,omitempty"`
+	// RosterRot: the RosterIndex values of the tree's nodes disagree with the order of the tree's
+	// roster (public API: NewTreeNode(idx, si) does not check idx; NewTree(reorderedRoster, root)).
+	// r > 0: the nodes are made for the roster in DFS order and the tree is stored with that roster
+	// rotated by r (as after NewRosterWithRoot); r < 0: the roster keeps its order and every
+	// hand-built node carries the index of the server -r places further.  The server hosting a
+	// node is TreeNode.ServerIdentity in both cases; the model's tree has no roster order at all.
+	RosterRot int `json:"roster_rot,omitempty"`
 }
 
 // Elem is one (node, message) pair seen by a handler or read from a channel.
@@ -554,6 +561,7 @@ func (w *worker) run(sc *Scenario) {
 	// ---- tree (built once per shape; registered again for every scenario)
 	key, _ := json.Marshal(sc.Tree)
 	key = append(key, net...)
+	key = append(key, fmt.Sprintf("/rot%d", sc.RosterRot)...)
 	bt := w.trees[string(key)]
 	if sc.LateTree {
 		bt = nil // a tree nobody has seen yet
@@ -574,6 +582,17 @@ func (w *worker) run(sc *Scenario) {
 			}
 		}
 		collect(&sc.Tree)
+		if n := len(sis); sc.RosterRot > 0 && n > 0 {
+			rot := make([]*network.ServerIdentity, n)
+			for i := range sis {
+				rot[i] = sis[(i+sc.RosterRot)%n]
+			}
+			sis = rot
+		} else if sc.RosterRot < 0 && n > 0 {
+			for s, i := range ridx {
+				ridx[s] = (i + (-sc.RosterRot)) % n
+			}
+		}
 		if sc.LateTree {
 			// an extra roster member that hosts no node makes roster id and tree id fresh
 			_, extra := onet.NewPrivIdentity(suite, 9999)
